@@ -23,7 +23,7 @@ import vocab as V  # noqa: E402
 from engine import Finding, Result  # noqa: E402
 
 ZONES = ["UTC", "America/Los_Angeles", "Australia/Lord_Howe", "Asia/Kathmandu"]
-OFFSETS = [0, 0, -720, -420, 345, 630, 840]
+OFFSETS = [0, 0, -720, -420, 345, 630, 840, "zi:Europe/London", "zi:UTC", "zi:Africa/Abidjan", "zi:America/New_York"]
 hx = V.hx
 
 # instants (µs) of interest
